@@ -109,4 +109,33 @@ def run_t(prop, tier, seed, ev, ex, plan, U=2, HU=2, **world):
                 log(f"[{prop}] {ob.name}: not confirmed on the real code -> INCONCLUSIVE\n    {str(out)[-600:]}")
                 ev.add(ob.name, "mirsym+z3", "inconclusive", ob.time_s, note="cex not reproduced natively", replay=path, **info)
                 rc = max(rc, 2)
+    # translator validation: the predicates that were discharged symbolically and have a system-call
+    # counterpart must also hold on the REAL system-call trace of the scenario test (unchanged tree)
+    if not viol and os.environ.get("VERIF_NO_STRACE") != "1":
+        done = ev.extra.setdefault("_validated_preds", set())
+        todo = [(l, p, role) for _, preds in plan for (l, p, role, k) in preds if k == "strace" and role not in done]
+        if todo:
+            try:
+                evs, ok, out = real_trace()
+                n = 0
+                for l, p, role in todo:
+                    done.add(role)
+                    v = getattr(p, "native", p)(None, straceplay.FakeFinal(evs))
+                    if v is not None or not ok:
+                        log(f"[{prop}] translator validation: predicate `{role}` does NOT hold on the real system-call trace "
+                            f"although every symbolic path satisfies it -> INCONCLUSIVE (model disagreement): {v}")
+                        ev.add(f"real-trace validation of {role}", "strace", "inconclusive", 0, note=str(v))
+                        rc = max(rc, 2)
+                    else:
+                        n += 1
+                ev.extra["traces_validated_against_impl"] = ev.extra.get("traces_validated_against_impl", 0) + n
+                if len(ev.samples) < 8:
+                    ev.samples.append({"real_syscall_trace_prefix": " ".join(T_short(e) for e in evs[:40])})
+            except Exception as e:
+                log(f"[{prop}] real-trace validation could not run: {e}")
     return 1 if viol else rc
+
+
+def T_short(e):
+    p = e.get("path", ("",))
+    return f"{e['op']}:{e['outcome']}:{p[0] if p else ''}"
